@@ -692,10 +692,12 @@ impl<'a, 'ast> Visit<'ast> for Collector<'a> {
     }
     fn visit_expr_path(&mut self, p: &'ast syn::ExprPath) {
         let segs: Vec<String> = p.path.segments.iter().map(|s| s.ident.to_string()).collect();
-        if segs.len() == 1 && FCONSTS.with(|f| f.borrow().contains(&segs[0])) {
-            let (_, e) = range(p.span());
-            self.push(e, e, "()".into(), "R5c");
-            return;
+        if segs.len() == 1 {
+            if let Some(newname) = FCONSTS.with(|f| f.borrow().iter().rev().find(|(o, _)| *o == segs[0]).map(|(_, n)| n.clone())) {
+                let (s0, e) = range(p.span());
+                self.push(s0, e, format!("{newname}()"), "R5c");
+                return;
+            }
         }
         if segs.len() == 2 && (segs[0] == "ValueType" || segs[0] == "f64") {
             let up = segs[1].chars().all(|c| c.is_uppercase() || c == '_' || c.is_ascii_digit());
@@ -864,7 +866,7 @@ fn apply_edits(src: &str, base: usize, end: usize, mut edits: Vec<Edit>) -> Resu
     Ok(out)
 }
 
-thread_local! { static FCONSTS: std::cell::RefCell<Vec<String>> = std::cell::RefCell::new(Vec::new()); }
+thread_local! { static FCONSTS: std::cell::RefCell<Vec<(String, String)>> = std::cell::RefCell::new(Vec::new()); }
 
 #[derive(Default, Debug)]
 struct Block {
@@ -1156,10 +1158,11 @@ fn extract(src: &Src, b: &Block, report: &mut Vec<serde_json::Value>, vacuity: b
                     let (_, ee) = range(s.expr.span());
                     col.push(is, ts, String::new(), "R5c");
                     let contract = if b.contract.is_empty() { String::new() } else { format!("\n{}\n", indent(&b.contract, "\t\t")) };
-                    col.push(ts, es, format!("pub fn {}() -> (r: ValueType){}{{ ", s.ident, contract), "R5c");
+                    let fname = rename.clone().unwrap_or_else(|| s.ident.to_string());
+                    col.push(ts, es, format!("pub fn {}() -> (r: ValueType){}{{ ", fname, contract), "R5c");
                     col.visit_expr(&s.expr);
                     col.push(ee, ie, " }".into(), "R5c");
-                    FCONSTS.with(|f| f.borrow_mut().push(s.ident.to_string()));
+                    FCONSTS.with(|f| f.borrow_mut().push((s.ident.to_string(), fname)));
                 } else {
                     vis_pub(&mut col, &s.vis, range(s.const_token.span()).0);
                     col.visit_expr(&s.expr);
